@@ -142,51 +142,3 @@ fn rt_rle_3() {
     assert!(d.read_u8().unwrap() == v[1]);
     assert!(d.read_u8().unwrap() == v[2]);
 }
-
-// ---- C09: v2 delete-set clock/len codec over TWO consecutive ranges (the running accumulator on both sides)
-// @harness name=rt_v2_ds_2 kind=bounded tiers=quick,thorough domain="all pairs of non-empty ranges [c1, c1+l1) , [c2, c2+l2) with c1+l1 <= c2 and c2+l2 <= u32::MAX" bound="two ranges per client (the accumulator is exercised across one range boundary)" target="EncoderV2::{write_ds_clock,write_ds_len,reset_ds_cur_val} / DecoderV2::{read_ds_clock,read_ds_len}" timeout=600
-fn vx_random_state_stub() -> std::hash::RandomState {
-    // EncoderV2::new() builds an (unused here) HashMap; RandomState::new() reads OS randomness through a syscall
-    // Kani cannot model. Any key pair is a valid RandomState.
-    unsafe { std::mem::zeroed() }
-}
-
-#[kani::proof]
-#[kani::stub(std::hash::RandomState::new, vx_random_state_stub)]
-#[kani::unwind(12)]
-fn rt_v2_ds_2() {
-    use crate::updates::encoder::{Encoder, EncoderV2};
-    let c1: u32 = kani::any();
-    let l1: u32 = kani::any();
-    let c2: u32 = kani::any();
-    let l2: u32 = kani::any();
-    kani::assume(l1 >= 1 && l2 >= 1);
-    kani::assume(c1 <= u32::MAX - l1 && c1 + l1 <= c2 && c2 <= u32::MAX - l2);
-    let mut e = EncoderV2::new();
-    e.reset_ds_cur_val();
-    e.write_ds_clock(c1);
-    e.write_ds_len(l1);
-    e.write_ds_clock(c2);
-    e.write_ds_len(l2);
-    let bytes = crate::updates::encoder::vx_kani_enc::v2_rest(e);
-    let empty: &[u8] = &[];
-    let mut d = DecoderV2 {
-        cursor: Cursor::new(&bytes),
-        keys: Vec::new(),
-        ds_curr_val: 0,
-        key_clock_decoder: IntDiffOptRleDecoder::new(Cursor::new(empty)),
-        client_decoder: UIntOptRleDecoder::new(Cursor::new(empty)),
-        left_clock_decoder: IntDiffOptRleDecoder::new(Cursor::new(empty)),
-        right_clock_decoder: IntDiffOptRleDecoder::new(Cursor::new(empty)),
-        info_decoder: RleDecoder::new(Cursor::new(empty)),
-        string_decoder: StringDecoder { buf: "", len_decoder: UIntOptRleDecoder::new(Cursor::new(empty)), pos: 0 },
-        parent_info_decoder: RleDecoder::new(Cursor::new(empty)),
-        type_ref_decoder: UIntOptRleDecoder::new(Cursor::new(empty)),
-        len_decoder: UIntOptRleDecoder::new(Cursor::new(empty)),
-    };
-    d.reset_ds_cur_val();
-    assert!(d.read_ds_clock().unwrap() == c1);
-    assert!(d.read_ds_len().unwrap() == l1);
-    assert!(d.read_ds_clock().unwrap() == c2);
-    assert!(d.read_ds_len().unwrap() == l2);
-}
